@@ -1,4 +1,5 @@
 import Firefly.Proof.AmlLex
+import Firefly.Proof.AmlParser
 import Firefly.Model.AmlParser
 /-!
 # C12 — Malformed AML is rejected with an error, never a crash, hang or stray pointer
@@ -152,5 +153,48 @@ theorem total_partial (d : Bytes) (r : Reader) (h : Inv d r) :
   exact ⟨fun n => f (safe_parseNumConstant d n), f (safe_parsePkgLength d), f (safe_parseString d),
     f (safe_parseNameString d), f (safe_nextOpcode d), f (safe_peekNextOpcode d),
     fun n => f (safe_parseByteListRaw d n)⟩
+
+/-- **Every stored slice lies inside the table — whole parser** (`C12.slices_in_table`, all passes:
+`parseObjectList`, `connectNamedObjArgs`, the `mergeScopeDirectives`/`relocateNamedObjects` loop,
+`parseDeferredBlocks`, `resolveMethodCalls`, `connectNonNamedObjArgs`).  For every table `d` with
+`SizeOk d`, every fuel, every table handle and every parser state whose object pool holds only values
+inside `d` (in particular the freshly created default scopes, which hold none): whenever
+`parseAML` returns — with success **or** with its parse error — every `[]byte` value stored in the
+resulting object pool (strings, names, buffers, connection byte lists, relocated name tails; live
+and freed slots alike) satisfies `off + len ≤ len(d)`, and the reader window is inside the table.
+(Partial correctness: runs of the model that end in `.panic`/`.outOfFuel` return no tree; that they do
+not occur is `total`, of which `total_partial` below proves the lexical part.) -/
+theorem slices_in_table (d : Bytes) (hd : SizeOk d) (fuel handle : Nat) (s : AmlParser.PState)
+    (hs : ∀ (i : Nat) (o : Obj), s.tree.pool[i]? = some o → ∀ off len, o.value = .bytes off len → off + len ≤ d.size) :
+    ∀ ok s', AmlParser.parseAML d fuel handle s = .ok (ok, s') →
+      (∀ (i : Nat) (o : Obj), s'.tree.pool[i]? = some o → ∀ off len, o.value = .bytes off len → off + len ≤ d.size) ∧
+      s'.r.offset ≤ d.size ∧ s'.r.pkgEnd ≤ d.size := by
+  intro ok s' e
+  have hs' : AmlParser.AllValsIn d s.tree := by
+    intro i o ho
+    cases hv : o.value with
+    | bytes off len => exact hs i o ho off len hv
+    | _ => trivial
+  have := AmlParser.parseAML_keeps hd fuel handle s hs' ok s' e
+  refine ⟨?_, this.1.1, this.1.2⟩
+  intro i o ho off len hv
+  have h := this.2 i o ho
+  rw [hv] at h
+  exact h
+
+/-- non-vacuity of `slices_in_table`: the default-scope tree satisfies the hypothesis for every table -/
+example (d : Bytes) : ∀ t, AmlParser.defaultTree 0 = .ok t →
+    ∀ (i : Nat) (o : Obj), t.pool[i]? = some o → ∀ off len, o.value = .bytes off len → off + len ≤ d.size := by
+  intro t ht
+  have : t.pool.toList.all (fun o => o.value == Val.none) = true := by
+    have h : (match AmlParser.defaultTree 0 with
+      | .ok t => t.pool.toList.all (fun o => o.value == Val.none) | .error _ => false) = true := by decide +kernel
+    rw [ht] at h; exact h
+  intro i o ho off len hv
+  have hm : o ∈ t.pool.toList := by
+    have := Array.mem_of_getElem? ho
+    exact Array.mem_toList_iff.mpr this
+  have := (List.all_eq_true.mp this) o hm
+  simp [hv] at this
 
 end Firefly.C12
